@@ -3,7 +3,7 @@
    DESIGN.md 5.2 as a derivation relation indexed by the syntax tree; compile is the post-order. *)
 From Coq Require Import List ZArith Bool Lia.
 Import ListNotations.
-Require Import ExprParser ExprSound ExprComplete ExprTotal ExprLex ExprLexOk.
+Require Import Base Tokenizer TokModel ExprParser ExprSound ExprComplete ExprTotal ExprLex ExprLexOk ExprString.
 Open Scope Z_scope.
 
 (* every sentence of the grammar is accepted and compiled to the post-order of its syntax tree *)
@@ -37,6 +37,25 @@ Theorem C02_operator_table_spells_nothing_else :
   forallb (fun e => existsb (fun s => zs_eqb (fst s) (fst e)) spec_operators) Tables.operator_table = true.
 Proof. exact operator_table_sound. Qed.
 
+(* ---- at string level ----
+   parse_string = the expression tokenizer with the parser's options (TokModel) + lexical completion (ExprLex) + the
+   parser.  A source item is an operator or bracket of the language, a keyword operator in any letter case, an
+   identifier, an integer or a quoted string; print writes the items with single blanks.  ParseString of the printed
+   text sees exactly the token sequence toks_from 0 items (constants and variables carry their token position), so the
+   three theorems above hold of the text. *)
+Theorem C02_text_is_parsed_as_its_tokens : forall items, items <> [] -> Forall item_ok items -> wf_str (print items) ->
+  parse_string (print items) = Some (parse_top (toks_from 0 items)).
+Proof. exact parse_string_of_print. Qed.
+Theorem C02_sentences_are_accepted_as_text : forall items e, items <> [] -> Forall item_ok items -> wf_str (print items) ->
+  D0 (toks_from 0 items) e -> parse_string (print items) = Some (ExprParser.Ok (compile e)).
+Proof. exact sentences_are_accepted_as_text. Qed.
+Theorem C02_non_sentences_are_rejected_as_text : forall items, items <> [] -> Forall item_ok items -> wf_str (print items) ->
+  (forall e, ~ D0 (toks_from 0 items) e) -> exists c, parse_string (print items) = Some (ExprParser.Err c).
+Proof. exact non_sentences_are_rejected_as_text. Qed.
+(* non-vacuity:  a + 12 * ( b NoT iN 'x''y' )  meets the premises *)
+Example C02_text_premises_satisfiable : Forall item_ok sample_items /\ wf_str (print sample_items).
+Proof. exact sample_items_ok. Qed.
+
 (* non-vacuity: a sentence with every bracket kind, a call with a trailing comma, postfix tests *)
 Example C02_nonvacuous :
   parse_top [TVar 1; TLP; TVar 2; TComma; TRP; TLB; TConst 1; TRB; TIs; TNot; TNull; TAnd; TNot; TLP; TConst 2; TRP; TNot; TIn; TVar 3]
@@ -49,5 +68,8 @@ Print Assumptions C02_accepted_are_sentences.
 Print Assumptions C02_everything_else_is_rejected_with_a_code.
 Print Assumptions C02_parser_terminates.
 Print Assumptions C02_grammar_is_unambiguous.
+Print Assumptions C02_text_is_parsed_as_its_tokens.
+Print Assumptions C02_sentences_are_accepted_as_text.
+Print Assumptions C02_non_sentences_are_rejected_as_text.
 Print Assumptions C02_operator_table_is_the_language.
 Print Assumptions C02_operator_table_spells_nothing_else.
